@@ -6,6 +6,7 @@ import (
 	"fmt"
 	"net"
 	"runtime"
+	"runtime/debug"
 	"strconv"
 	"strings"
 	"sync"
@@ -53,7 +54,8 @@ type Scheduler struct {
 	Taken    [][2]int
 	Log      []string
 	Deadlock bool
-	Overlap  int // number of decisions taken while >= 2 tasks had started and not finished
+	Panics   []string // panics of tasks (code under test), with stacks
+	Overlap  int      // number of decisions taken while >= 2 tasks had started and not finished
 	onStep   func()
 }
 
@@ -148,6 +150,14 @@ func (s *Scheduler) Run(names []string, fns []func()) {
 		go func() {
 			defer wg.Done()
 			defer atomic.StoreInt32(&t.state, tDone)
+			defer func() {
+				// a panic of the code under test inside a concurrent task: keep it, the episode reports it
+				if r := recover(); r != nil {
+					s.mu.Lock()
+					s.Panics = append(s.Panics, fmt.Sprintf("task %s: %v\n%s", t.name, r, debug.Stack()))
+					s.mu.Unlock()
+				}
+			}()
 			t.gid = curGid()
 			s.mu.Lock()
 			s.byGid[t.gid] = t
